@@ -25,6 +25,9 @@ type Prog struct {
 	Args       map[string]reflect.Type
 	Results    map[string]reflect.Type
 	Helpers    map[string]interface{}
+	// Missing lists "kind|key|GoName" of identifiers the model says the generated
+	// package must declare but does not.
+	Missing []string
 
 	Schema *im.Program
 	Opts   Opts
